@@ -22,7 +22,7 @@ def run(ctx):
     h = ctx.harness("c03_hier", extra=["-ldl"])
     drv = ctx.driver()
     # (threads, ops, bottom): bottom 0 = serial queue, 1 = workloop
-    runs = [(4, 300, 0), (6, 300, 0), (8, 200, 0), (3, 400, 0), (4, 300, 1), (6, 200, 1)] if not ctx.thorough else [(4, 3000, 0), (6, 2000, 0), (8, 1500, 0), (12, 1000, 0), (3, 3000, 0), (5, 2000, 0), (7, 1500, 0), (2, 3000, 0), (4, 2000, 1), (8, 1500, 1), (12, 1000, 1)]
+    runs = [(4, 300, 0), (6, 300, 0), (8, 200, 0), (3, 400, 0), (4, 300, 1), (6, 200, 1), (8, 400, 1), (8, 400, 1), (8, 400, 1), (10, 300, 1)] if not ctx.thorough else [(4, 3000, 0), (6, 2000, 0), (8, 1500, 0), (12, 1000, 0), (3, 3000, 0), (5, 2000, 0), (7, 1500, 0), (2, 3000, 0), (4, 2000, 1), (8, 1500, 1), (12, 1000, 1), (8, 1500, 1), (8, 1500, 1)]
     procs, paths, items = [], [], 0
     for i, (thr, ops, bottom) in enumerate(runs):
         path = os.path.join(ctx.outdir, "hier-%d.txt" % i)
